@@ -1,0 +1,147 @@
+//go:build verif
+// +build verif
+
+package service
+
+import (
+	"net"
+)
+
+// Verification hooks, compiled only with the "verif" build tag. They are used
+// by an external monitoring harness and must not introduce synchronisation:
+// the hook variables are set once, before any library goroutine exists.
+
+// VerifEventHook receives "stop.begin", "stop.done" (teardown of a connection
+// started / finished) and "proc.handled" (the processor has handled one packet;
+// arg is the packet type). id is the service id, cid the client identifier.
+var VerifEventHook func(kind string, id uint64, client bool, cid string, arg int)
+
+// VerifYieldHook is called at named scheduling points. Points named
+// "buf.*.prewait" are called with a condition's mutex held: a hook may only
+// delay there. obj identifies the buffer or service.
+var VerifYieldHook func(point string, obj interface{})
+
+// Indices into VerifCount.
+const (
+	VerifWriteEnter = iota
+	VerifWriteDuringStop
+	VerifWriteAfterStop
+	VerifStopEnter
+	VerifRetainEnter
+	VerifRetainedLookup
+	VerifRetainedDuringRetain
+	VerifRetainDuringLookup
+	VerifSubscribersEnter
+	VerifCountLen
+)
+
+// VerifCount holds plain (unsynchronised, lower-bound) counters.
+var VerifCount [VerifCountLen]int64
+
+var (
+	verifRetainActive int64
+	verifLookupActive int64
+)
+
+func verifEvent(kind string, svc *service, arg int) {
+	if h := VerifEventHook; h != nil {
+		cid := ""
+		if svc.sess != nil && svc.sess.Cmsg != nil {
+			cid = string(svc.sess.Cmsg.ClientID())
+		}
+		h(kind, svc.id, svc.client, cid, arg)
+	}
+}
+
+func verifYield(point string, obj interface{}) {
+	if h := VerifYieldHook; h != nil {
+		h(point, obj)
+	}
+}
+
+// Kinds for verifMark.
+const (
+	verifMarkWrite = iota
+	verifMarkStop
+	verifMarkRetainBegin
+	verifMarkRetainEnd
+	verifMarkLookupBegin
+	verifMarkLookupEnd
+	verifMarkSubscribers
+)
+
+//go:norace
+func verifMark(kind int, svc *service) {
+	switch kind {
+	case verifMarkWrite:
+		VerifCount[VerifWriteEnter]++
+		if svc.closed != 0 {
+			if svc.out == nil {
+				VerifCount[VerifWriteAfterStop]++
+			} else {
+				VerifCount[VerifWriteDuringStop]++
+			}
+		}
+	case verifMarkStop:
+		VerifCount[VerifStopEnter]++
+	case verifMarkRetainBegin:
+		VerifCount[VerifRetainEnter]++
+		if verifLookupActive > 0 {
+			VerifCount[VerifRetainDuringLookup]++
+		}
+		verifRetainActive++
+	case verifMarkRetainEnd:
+		verifRetainActive--
+	case verifMarkLookupBegin:
+		VerifCount[VerifRetainedLookup]++
+		if verifRetainActive > 0 {
+			VerifCount[VerifRetainedDuringRetain]++
+		}
+		verifLookupActive++
+	case verifMarkLookupEnd:
+		verifLookupActive--
+	case verifMarkSubscribers:
+		VerifCount[VerifSubscribersEnter]++
+	}
+}
+
+// VerifServe runs the normal server-side connection handling (configuration
+// check and handleConnection) on a caller-supplied connection, exactly as the
+// accept loop of ListenAndServe does for an accepted socket.
+func (svr *Server) VerifServe(c net.Conn) error {
+	if err := svr.checkConfiguration(); err != nil {
+		return err
+	}
+	_, err := svr.handleConnection(c)
+	return err
+}
+
+// VerifBuffer exposes the unexported ring buffer type.
+type VerifBuffer = buffer
+
+// VerifNewBuffer constructs a ring buffer as service.start does.
+func VerifNewBuffer(size int64) (*VerifBuffer, error) {
+	return newBuffer(size)
+}
+
+// VerifLocksFree reports whether the two internal mutexes of the buffer are
+// currently free (to be used at quiescent points only).
+func (bf *buffer) VerifLocksFree() (producerLock, consumerLock bool) {
+	type tryLocker interface{ TryLock() bool }
+	if l, ok := bf.pcond.L.(tryLocker); ok {
+		if l.TryLock() {
+			producerLock = true
+			bf.pcond.L.Unlock()
+		}
+	}
+	if l, ok := bf.ccond.L.(tryLocker); ok {
+		if l.TryLock() {
+			consumerLock = true
+			bf.ccond.L.Unlock()
+		}
+	}
+	return
+}
+
+// VerifBufferSize returns the effective size of the ring.
+func (bf *buffer) VerifBufferSize() int64 { return bf.size }
